@@ -124,8 +124,12 @@ type rig struct {
 	s   tcell.Screen
 }
 
+// rigLocale selects the character set of the next rig (C10 also runs with a stateful legacy
+// encoder: HZ-GB2312 keeps a shift state that every Reset/Transform writes).
+var rigLocale = "en_US.UTF-8"
+
 func newRig(w, h int) *rig {
-	os.Setenv("LC_ALL", "en_US.UTF-8")
+	os.Setenv("LC_ALL", rigLocale)
 	os.Setenv("TCELL_TRUECOLOR", "disable")
 	os.Unsetenv("TCELL_ALTSCREEN")
 	ti := *terminfo.VerifGet("xterm-256color")
